@@ -17,7 +17,7 @@ import os, sys, importlib
 import vcommon
 
 PROPS = ["Bee2V/C02/Props.lean", "Bee2V/C02/PropsKeyt.lean", "Bee2V/C02/PropsIbs.lean", "Bee2V/C02/PropsBelt.lean", "Bee2V/C02/PropsNonce.lean",
-         "Bee2V/C02/PropsC06.lean", "Bee2V/C02/Toy.lean"]
+         "Bee2V/C02/PropsC06.lean", "Bee2V/C02/PropsSkel.lean", "Bee2V/C02/Toy.lean"]
 TARGETS = [p[:-5].replace("/", ".") for p in PROPS]
 CORPUS = os.path.join(vcommon.VERIF, "gen", "c02_corpus.txt")
 OK, BAD_INPUT, BAD_OID, BAD_RNG, BAD_PARAMS, BAD_PRIVKEY, BAD_PUBKEY, BAD_SHAREDKEY, BAD_SIG, BAD_KEYTOKEN = \
@@ -36,6 +36,9 @@ def regen(ctx):
     import x_c02
     importlib.reload(x_c02)
     ctx.regen("Bee2V/Gen/C02Params.lean", x_c02.generate(vcommon.REPO))
+    import x_c02_skel
+    importlib.reload(x_c02_skel)
+    ctx.regen("Bee2V/Gen/C02Skel.lean", x_c02_skel.generate(vcommon.REPO))
 
 
 # ------------------------------------------------------------------ Python reference: curve arithmetic
